@@ -62,5 +62,14 @@ for sid in ids:
         subprocess.run(["git", "-C", "/repo", "worktree", "remove", "--force", wt], capture_output=True)
 for p in sorted(touched):
     subprocess.run(["./check", p, "--tier", "quick"], cwd=V, capture_output=True)
+# stale work directories (a run that reports a violation keeps its scratch directory; the replays hold what matters)
+import shutil, time
+for d in os.listdir(os.path.join(V, "work")):
+    pth = os.path.join(V, "work", d)
+    try:
+        if os.path.isdir(pth) and time.time() - os.path.getmtime(pth) > 2700:
+            shutil.rmtree(pth, ignore_errors=True)
+    except OSError:
+        pass
 for row in rows:
     print("%-40s %-5s %-8s %s" % row)
